@@ -200,9 +200,15 @@ def arrange(segs, edge_lines, rest, order):
 
 
 def e_cases(quick):
-  posts = [None, ["rm", "e"], ["rename", "a", "z"]] if quick else [
+  # "refused": a line that is refused after its first side was resolved
+  # (its second side names an edge) -- the caller catches the error; "in-out":
+  # a line over placeholders is added and removed again
+  REF_E = ["refused", T(["E", "*", "a-", "u+", "0", "1", "0", "1", "*"])]
+  REF_G = ["refused", T(["G", "*", "a+", "u-", "1", "*"])]
+  INOUT = ["in-out", T(["O", "zz", "c+ a-"]), "zz"]
+  posts = [None, ["rm", "e"], ["rename", "a", "z"], REF_E, INOUT] if quick else [
       None, ["rename", "a", "z"], ["rename", "b", "y"], ["rm", "u"],
-      ["rm", "c"], ["rm", "e"]]
+      ["rm", "c"], ["rm", "e"], REF_E, REF_G, INOUT]
   vlevels = [1] if quick else [0, 1, 3]
   for vlevel in vlevels:
     for post in posts:
@@ -246,9 +252,13 @@ TOPOLOGIES = (("A", "B"), ("B", "A"), ("A", "A"))
 
 
 def lcg_cases(quick):
-  posts = [None, ["rm", "u"]] if quick else [None, ["rename", "A", "Z"],
-                                             ["rename", "B", "Y"], ["rm", "u"],
-                                             ["rm", "C"]]
+  REF_L = ["refused", T(["L", "A", "-", "u", "+", "*"])]
+  REF_C = ["refused", T(["C", "A", "+", "u", "-", "0", "*"])]
+  INOUT = ["in-out", T(["P", "zz", "C+,A+", "*"]), "zz"]   # no link C+ -> A+
+  INOUT2 = ["in-out", T(["P", "zz", "C-,C+,A-", "*"]), "zz"]
+  posts = [None, ["rm", "u"], REF_L, INOUT] if quick else [
+      None, ["rename", "A", "Z"], ["rename", "B", "Y"], ["rm", "u"],
+      ["rm", "C"], REF_L, REF_C, INOUT, INOUT2]
   vlevels = [1] if quick else [0, 1, 3]
   for vlevel in vlevels:
     for post in posts:
@@ -284,9 +294,11 @@ def lcg_cases(quick):
                                                         copies),
                          "order": order, "lines": lines, "post": post}
   # gaps (GFA2)
-  posts = [None] if quick else [None, ["rename", "a", "z"],
-                                ["rename", "b", "y"], ["rm", "u"],
-                                ["rm", "c"]]
+  REF_G = ["refused", T(["G", "*", "a+", "u-", "1", "*"])]
+  REF_E = ["refused", T(["E", "*", "a-", "u+", "0", "1", "0", "1", "*"])]
+  posts = [None, REF_G] if quick else [None, ["rename", "a", "z"],
+                                       ["rename", "b", "y"], ["rm", "u"],
+                                       ["rm", "c"], REF_G, REF_E]
   for vlevel in vlevels:
     for post in posts:
       sa, sb, sc = (T(["S", n, "3", "*"]) for n in "abc")
@@ -379,6 +391,15 @@ def execute(case):
     if post[0] == "rename":
       g.segment(post[1]).name = post[2]
       lines = R.doc_rename(lines, post[1], post[2])
+    elif post[0] == "refused":
+      # the document stays as it is, whether gfapy refuses the line or not
+      try:
+        g.add_line(post[1])
+      except gfapy.Error:
+        pass
+    elif post[0] == "in-out":
+      g.add_line(post[1])
+      g.rm(post[2])
     else:
       g.rm(post[1])
       lines = R.doc_remove(lines, post[1])
@@ -420,6 +441,11 @@ def standalone(case, field):
   if post:
     if post[0] == "rename":
       s.append("g.segment({!r}).name = {!r}".format(post[1], post[2]))
+    elif post[0] == "refused":
+      s.append("try:\n  g.add_line({!r})\nexcept gfapy.Error as e:\n  "
+               "print(type(e).__name__)".format(post[1]))
+    elif post[0] == "in-out":
+      s.append("g.add_line({!r}); g.rm({!r})".format(post[1], post[2]))
     else:
       s.append("g.rm({!r})".format(post[1]))
   s.append("for s in g.segments:")
